@@ -344,8 +344,19 @@ class Interp:
                     return a - b
                 if isinstance(op, ast.Mult):
                     return a * b
+                if isinstance(a, (int, float)) and isinstance(b, (int, float)):
+                    if isinstance(op, ast.Div):
+                        return a / b
+                    if isinstance(op, ast.FloorDiv):
+                        return a // b
+                    if isinstance(op, ast.Mod):
+                        return a % b
+                    if isinstance(op, ast.Pow):
+                        return a ** b
             except TypeError:
                 pass
+            except ZeroDivisionError:
+                raise RaiseSig('ZeroDivisionError', ('division by zero',), node)
         if isinstance(a, Sym) or isinstance(b, Sym) or isinstance(a, ALine) or isinstance(b, ALine):
             return Sym('binop', type(op).__name__, a, b)
         if isinstance(a, AList) and isinstance(b, AList) and isinstance(op, ast.Add):
@@ -369,7 +380,7 @@ class Interp:
                     except Exception:
                         self._lazy[e.id] = self.eval(self.mod.assigns[e.id][0], {})
                 return self._lazy[e.id]
-            if e.id in ('set', 'frozenset', 'sorted', 'any', 'all', 'zip', 'abs'):
+            if e.id in ('set', 'frozenset', 'sorted', 'any', 'all', 'zip', 'abs', 'sum'):
                 return ('builtin', e.id)
             if e.id in self.mod.imports and getattr(self, 'repo', None) is not None:
                 modname, orig = self.mod.imports[e.id]
@@ -805,7 +816,25 @@ class Interp:
                         self.bad(e, f'isinstance class {cls} outside the subset')
                 return res
             if name == 'dict':
-                return ADict()
+                out = ADict()
+                if args:
+                    if isinstance(args[0], ADict):
+                        out.d.update(args[0].d)
+                    else:
+                        for pair in self.iterate(args[0], e):
+                            k, v = self.iterate(pair, e)
+                            out.d[k] = v
+                return out
+            if name == 'sum' and args:
+                items = self.iterate(args[0], e)
+                if all(isinstance(x, (int, float)) and not isinstance(x, bool) for x in items):
+                    return sum(items)
+                self.bad(e, 'sum of non-numbers')
+            if name in ('min', 'max') and len(args) == 1:
+                items = self.iterate(args[0], e)
+                if items and all(isinstance(x, (int, float)) and not isinstance(x, bool) for x in items):
+                    return (min if name == 'min' else max)(items)
+                self.bad(e, f'{name} of non-numbers')
             if name in ('set', 'frozenset'):
                 return frozenset(self.iterate(args[0], e)) if args else frozenset()
             if name == 'str':
@@ -842,8 +871,13 @@ class Interp:
         r = self.call_value_hook(fn, args, e)
         if r is not NotImplemented:
             return r
+        if isinstance(fn, tuple) and fn and fn[0] == 'extern' and fn[2] in self.oracles:
+            return self.oracles[fn[2]](args, e)
         if isinstance(fn, tuple) and fn and fn[0] == 'extern' and getattr(self, 'repo', None) is not None:
-            other = self.repo.resolve_module(fn[1]) if fn[1].startswith('.') else self.repo.module(fn[1])
+            try:
+                other = self.repo.resolve_module(fn[1]) if fn[1].startswith('.') else self.repo.module(fn[1])
+            except Unrecognised:
+                return Sym('external', fn[1], fn[2])        # a third-party function: opaque result
             if other is not None and fn[2] in other.funcs:
                 return self.sub_interp(other).call_function(other.funcs[fn[2]], args, e, kwargs)
         self.bad(e, 'call outside the interpreted subset')
